@@ -36,7 +36,7 @@ pub fn render(c: &SeqCase) -> (RMsg, Encoded) {
                 3 => RAttr::Fp(FpSpec::Computed(fault)),
                 _ => match i % 3 {
                     0 => RAttr::Priority(1000 + i as u32),
-                    1 => RAttr::Software(format!("sw-{}", i)),
+                    1 => RAttr::Software(format!("sw{}", i)),
                     _ => RAttr::Raw {
                         typ: 0x7F00 + i as u16,
                         value: vec![i as u8; i + 1],
